@@ -205,6 +205,7 @@ func replayScript(v *Violation) string {
 			if last && v.Inject != "" {
 				env += v.Inject + " "
 			}
+			b.WriteString("find . -path ./.goit -prune -o -type f -exec touch -d @" + itoa(worktreeMtime) + " {} +\n")
 			b.WriteString(env + "$GOIT " + strings.Join(q, " "))
 			if last {
 				b.WriteString("; echo \"exit=$?\"\n")
